@@ -118,6 +118,20 @@ def handler(st, opts):
                 err = torch.linalg.norm(got - ref).item()
                 if err > 1e-8 * scale:
                     problems.append(P("oracle", "P %s differs from the orthogonal projection onto the tangent space at the current x by %.3g (scale %.3g)" % (nm, err, scale)))
+            # homogeneity at tiny magnitude: P(c z) = c P(z) for c = 1e-12 (no absolute threshold anywhere)
+            cz = tt.TT([z.cores[0] * 1e-12] + [q.clone() for q in z.cores[1:]])
+            got = dense(proj(x, cz)).reshape(-1)
+            ref = (Q @ (Q.T @ dense(z).reshape(-1))) * 1e-12
+            stats["calls"] += 1
+            if torch.linalg.norm(got - ref).item() > 1e-8 * scale * 1e-12:
+                problems.append(P("oracle", "P(1e-12 z) differs from 1e-12 P(z) by %.3g (relative to 1e-12)" % (torch.linalg.norm(got - ref).item() / 1e-12)))
+            # ... and close to the base point: P(x + 1e-10 w) = x + 1e-10 P(w)
+            near = x + tt.TT([w.cores[0] * 1e-10] + [q.clone() for q in w.cores[1:]])
+            got = dense(proj(x, near)).reshape(-1) - dense(x).reshape(-1)
+            ref = (Q @ (Q.T @ dense(w).reshape(-1))) * 1e-10
+            stats["calls"] += 1
+            if torch.linalg.norm(got - ref).item() > 1e-4 * 1e-10 * scale:
+                problems.append(P("oracle", "P(x + 1e-10 w) - x differs from 1e-10 P(w) by %.3g (relative to 1e-10)" % (torch.linalg.norm(got - ref).item() / 1e-10)))
             # tangent vectors are fixed: x with one core replaced
             for k in (0, len(x.cores) - 1):
                 cs = [c.clone() for c in x.cores]
